@@ -62,7 +62,7 @@ func runC08(p *core.Program, r *core.Report) {
 	eff := core.GetEff(p)
 	if ent := p.Method("WLRecipe", "Entropy"); ent != nil {
 		n := 0
-		for _, ef := range eff.Summary[ent] {
+		for _, ef := range eff.Writes(ent) {
 			n++
 			r.Fail("R8.4", core.FuncName(ent), ef.What+" -> "+ef.Root.String(), p.InstrPos(ef.Instr), "Entropy() modifies state that outlives the call")
 		}
